@@ -39,6 +39,10 @@ def raw_access(body):
     for c in body.calls():
         nm = c.callee.split("::")[-1]
         if sfx(c.callee, "Tokenizer::bytes") or sfx(c.callee, "Tokenizer::remaining_bytes"):
+            # asking only how many bytes there are is not reading them (`remaining_bytes().is_empty()`, `bytes().len()`)
+            users = [u for u in body.calls() if u is not c and any(any(len(x) > 3 and x[3] is c for x in expr_calls(body.expr(a))) for a in u.args)]
+            if users and all(u.callee.split("::")[-1] in ("len", "is_empty") for u in users):
+                continue
             out.append(nm)
         elif nm in ("as_ref", "as_bytes", "as_str", "bytes", "chars", "char_indices") and c.args:
             e = show(body.expr(c.args[0]))
@@ -190,7 +194,8 @@ def run(ck, F, E):
                    "chomp_keyword no longer upper-cases the input byte before comparing it with the keyword", ckw.span)
     cs = get_fn(ck, F, "Tokenizer::chomp_symbol")
     if cs is not None:
-        pushes = [c for c in cs.calls() if c.callee.endswith("Vec::push")]
+        # the name is accumulated byte by byte (Vec<u8>) or char by char (String): either way from the upper-cased byte
+        pushes = [c for c in cs.calls() if c.callee.endswith("Vec::push") or c.callee.endswith("String::push")]
         ok = bool(pushes) and all("to_ascii_uppercase" in show(cs.expr(c.args[1])) for c in pushes)
         ck.require(ok, "C12:CASE:symbol-upper", "case folding", "symbol bytes are pushed upper-cased",
                    "chomp_symbol stores identifier bytes without upper-casing them", cs.span)
